@@ -96,11 +96,13 @@ type result struct {
 type crashMsg struct{}
 
 type peerCmd struct {
-	what string // "resp" | "resp-notify" | "resp-nosender" | "sync"
-	id   int64
-	kind hx.T
-	ack  chan *result
-	seen chan [][2]int64
+	what  string // "resp" | "resp-notify" | "resp-nosender" | "sync"
+	id    int64
+	want  int64 // "resp": tag of the request the peer is asked to answer (-1: whichever it holds under id)
+	kind  hx.T  // the answer (KAns | KRaw)
+	ghost int64 // set by the peer: tag of the request object it did answer, -1 if none (hand-made)
+	ack   chan *result
+	seen  chan [][2]int64
 }
 
 // ---- the requesting service
@@ -197,10 +199,13 @@ func (e *OtherEntry) Ping(ctx *as.RemoteContext, msg *messages.TestHello) error 
 type peerSvc struct {
 	*as.Service
 	w           *world
-	reqs        map[int32]*messages.ServiceRequest // requests that reached ReceiveRequest
-	parked      map[int32]apientry.HandlerCBFunc   // API completions not yet used, by request id
-	parkedByTag map[int64]apientry.HandlerCBFunc
-	held        map[int32]*messages.ServiceRequest // requests whose processing is deferred (no such method)
+	// everything the peer holds is kept by the TAG of the request (its payload), not by request
+	// id: a restarted requester uses the same ids again
+	reqs        map[int64]*messages.ServiceRequest // requests that reached ReceiveRequest
+	parkedByTag map[int64]apientry.HandlerCBFunc   // API completions not yet used
+	held        map[int64]*messages.ServiceRequest // requests whose processing is deferred (no such method)
+	idOf        map[int64]int32                    // request id each tagged request came with
+	latest      map[int32]int64                    // the last tagged request received under a request id
 	released    map[*messages.ServiceRequest]bool
 	lastNote    *messages.ServiceRequest
 	seen        [][2]int64
@@ -238,14 +243,19 @@ func (p *peerSvc) Receive(ctx actor.Context) {
 		}
 		if m.ReqId == as.NotifyReqID {
 			p.lastNote = m
-		} else if strings.HasSuffix(m.Route, ".NoSuch") {
-			p.held[m.ReqId] = m
-			return
+		} else {
+			if m.Sender != nil && tag >= 0 {
+				p.idOf[tag] = m.ReqId
+				p.latest[m.ReqId] = tag
+			}
+			if strings.HasSuffix(m.Route, ".NoSuch") {
+				p.held[tag] = m
+				return
+			}
 		}
 		p.Service.Receive(ctx)
-		if cb := p.parkedByTag[tag]; cb != nil && m.ReqId != as.NotifyReqID {
-			delete(p.parkedByTag, tag)
-			p.parked[m.ReqId] = cb
+		if m.ReqId == as.NotifyReqID {
+			delete(p.parkedByTag, tag) // a completion parked by a notification is never used
 		}
 		return
 	}
@@ -254,7 +264,7 @@ func (p *peerSvc) Receive(ctx actor.Context) {
 
 func (p *peerSvc) ReceiveRequest(ctx actor.Context, request *messages.ServiceRequest, rawMsg interface{}) {
 	if request.ReqId != as.NotifyReqID {
-		p.reqs[request.ReqId] = request
+		p.reqs[bodyTag(request)] = request
 	}
 }
 
@@ -269,7 +279,9 @@ func (p *peerSvc) command(ctx actor.Context, c *peerCmd) {
 		ctx.Send(p.w.svcPID, &barrier{ack: c.ack})
 		return
 	case "resp":
-		if p.respond(ctx, int32(c.id), c.kind) {
+		deferred, ghost := p.respond(ctx, int32(c.id), c.want, c.kind)
+		c.ghost = ghost
+		if deferred {
 			// the answer is produced by the deferred request, which is behind us in the mailbox
 			ctx.Send(ctx.Self(), &peerCmd{what: "fwd-barrier", ack: c.ack})
 			return
@@ -399,39 +411,49 @@ func handMade(id int32, k hx.T) *messages.ServiceResponse {
 	return res
 }
 
-// respond answers request id with kind k.  KAns goes through the most real path available:
+// respond answers with kind k under request id `id`.  WHICH request the peer answers: the one
+// tagged `want` if it holds that request and it came under this id, else the last request it
+// received under this id, else none.  A KAns for a request it holds goes through the real path:
 //   - a held request to a missing method, answered (error, "no method"): released to Dispatch,
-//     whose error reply goes through Service.Response (returns true: the reply is still to come);
+//     whose error reply goes through Service.Response (deferred: the reply is still to come);
 //   - a parked API completion (first use): invoked with (error | nil, message), the reply goes
 //     through the dispatcher's closure and Service.Response;
 //   - a request that reached ReceiveRequest: Service.Response(req, code, text, message);
-//   - otherwise (id the peer holds no request for): a hand-made ServiceResponse.
-// KRaw is always a hand-made ServiceResponse with exactly those fields.
-func (p *peerSvc) respond(ctx actor.Context, id int32, k hx.T) bool {
+// and the ghost returned is that request's tag.  Otherwise (no such request, KRaw) a hand-made
+// ServiceResponse with exactly those fields is sent and the ghost is -1.
+func (p *peerSvc) respond(ctx actor.Context, id int32, want int64, k hx.T) (deferred bool, ghost int64) {
 	if k.Name == "KAns" {
+		t := int64(-1)
+		if rid, ok := p.idOf[want]; ok && want >= 0 && rid == id {
+			t = want
+		} else if lt, ok := p.latest[id]; ok {
+			t = lt
+		}
 		code, info, m := k.Int(0), k.Int(1), k.Term(2)
-		if req := p.held[id]; req != nil && code != 0 && info == noMethodErr {
-			delete(p.held, id)
-			p.released[req] = true
-			ctx.Send(ctx.Self(), req)
-			return true
-		}
-		if cb := p.parked[id]; cb != nil {
-			delete(p.parked, id)
-			if code != 0 {
-				cb(errors.New(infoText(info)), msgOf(m))
-			} else {
-				cb(nil, msgOf(m))
+		if t >= 0 {
+			if req := p.held[t]; req != nil && code != 0 && info == noMethodErr {
+				delete(p.held, t)
+				p.released[req] = true
+				ctx.Send(ctx.Self(), req)
+				return true, t
 			}
-			return false
-		}
-		if req := p.reqs[id]; req != nil {
-			p.Response(req, int32(code), infoText(info), msgOf(m))
-			return false
+			if cb := p.parkedByTag[t]; cb != nil {
+				delete(p.parkedByTag, t)
+				if code != 0 {
+					cb(errors.New(infoText(info)), msgOf(m))
+				} else {
+					cb(nil, msgOf(m))
+				}
+				return false, t
+			}
+			if req := p.reqs[t]; req != nil {
+				p.Response(req, int32(code), infoText(info), msgOf(m))
+				return false, t
+			}
 		}
 	}
 	ctx.Send(p.w.svcPID, handMade(id, k))
-	return false
+	return false, -1
 }
 
 // ---- one world per case
@@ -473,6 +495,9 @@ type world struct {
 	clock   int64
 	via     int64 // how requests reach the peer (op Via)
 	crashes int64 // restarts so far = number of the live incarnation (driver side)
+	// free-running timers: until the first TickReal the real 1 s timers are never detached, so
+	// that what fires there is exactly what the code armed (see freeRunning)
+	free bool
 
 	// touched only on the service goroutine
 	incs    []*hsvc // every incarnation so far; svc is the last one
@@ -496,10 +521,11 @@ func newWorld() *world {
 	sysEntry := &SysEntry{}
 	pprops, pext := as.NewServicePropsWithNewScheDisp(func() actor.Actor {
 		p := &peerSvc{Service: as.NewService(), w: w,
-			reqs:        map[int32]*messages.ServiceRequest{},
-			parked:      map[int32]apientry.HandlerCBFunc{},
+			reqs:        map[int64]*messages.ServiceRequest{},
 			parkedByTag: map[int64]apientry.HandlerCBFunc{},
-			held:        map[int32]*messages.ServiceRequest{},
+			held:        map[int64]*messages.ServiceRequest{},
+			idOf:        map[int64]int32{},
+			latest:      map[int32]int64{},
 			released:    map[*messages.ServiceRequest]bool{}}
 		p.Service.InitReqReceiver(p)
 		entry.p = p
@@ -613,7 +639,9 @@ func (w *world) checkLoop() {
 func (w *world) collect() *result {
 	r := &result{evs: w.evs, evInc: w.evInc, got: w.got, onLoop: w.onLoop}
 	for _, h := range w.incs {
-		h.VerifDetachTimer()
+		if !w.free {
+			h.VerifDetachTimer()
+		}
 		r.arms = append(r.arms, h.VerifTimerArmed())
 		r.lens = append(r.lens, h.VerifPendingLen())
 		for _, id := range h.VerifPendingIds() {
@@ -797,7 +825,9 @@ func (w *world) handle(m *opMsg) {
 	case "begin-real":
 		r := &result{}
 		for _, h := range w.incs {
-			h.VerifReattachTimer()
+			if !w.free {
+				h.VerifReattachTimer()
+			}
 			r.arms = append(r.arms, h.VerifTimerArmed())
 			r.lens = append(r.lens, h.VerifPendingLen())
 		}
@@ -835,6 +865,15 @@ func (w *world) handle(m *opMsg) {
 	case "Advance":
 		w.rec("EIdle")
 		if dt := o.Int(0); dt >= 0 {
+			if w.free {
+				// the clock moves after this operation's observation was taken: whatever the
+				// free-running timers do then belongs to the TickReal that follows
+				r := w.collect()
+				w.clock += dt
+				common.VerifSetNowMs(w.clock)
+				m.ack <- r
+				return
+			}
 			w.clock += dt
 			common.VerifSetNowMs(w.clock)
 		}
@@ -876,9 +915,20 @@ func (w *world) toSvc(what string, op hx.T) *result {
 }
 
 func (w *world) toPeer(what string, id int64, kind hx.T) *result {
+	r, _ := w.toPeerResp(what, id, -1, kind)
+	return r
+}
+
+// toPeerResp also returns the peer's ghost: the tag of the request object it answered (-1: none)
+func (w *world) toPeerResp(what string, id, want int64, kind hx.T) (*result, int64) {
 	ack := make(chan *result, 1)
-	system().Root.Send(w.peerPID, &peerCmd{what: what, id: id, kind: kind, ack: ack})
-	return wait(ack)
+	c := &peerCmd{what: what, id: id, want: want, kind: kind, ghost: -1, ack: ack}
+	system().Root.Send(w.peerPID, c)
+	r := wait(ack)
+	if r == nil {
+		return nil, -1
+	}
+	return r, c.ghost // written by the peer before the barrier that produced r was sent
 }
 
 func (w *world) peerSeen() ([][2]int64, bool) {
@@ -940,6 +990,7 @@ func (w *world) tickReal() *result {
 			}
 		}
 	}
+	w.free = false // from here on the driver fires the scans itself again (collect detaches)
 	r := w.toSvc("collect", hx.T{})
 	if r == nil {
 		return nil
@@ -966,17 +1017,40 @@ func (w *world) tickReal() *result {
 	return r
 }
 
+// freeRunning: histories of the shape  (Do | Crash | Via)* ; Advance ; TickReal ; ...  are run
+// with the real timers untouched up to and including that TickReal - no detach, no reattach -,
+// so that a timer the code cancelled, lost or never armed is seen as such.  No response is
+// processed before the TickReal, hence every armed timer has a non-empty table and a firing
+// before the clock moves changes nothing.
+func freeRunning(ops []hx.T) bool {
+	for i, o := range ops {
+		switch o.Name {
+		case "Do", "Crash", "Via":
+		case "Advance":
+			return i+1 < len(ops) && ops[i+1].Name == "TickReal"
+		default:
+			return false
+		}
+	}
+	return false
+}
+
 // Exec runs one op list against a fresh service/peer pair and returns one Obs per op.
 func Exec(ops []hx.T) (obs []any, nontrivial bool) {
 	w := newWorld()
+	w.free = freeRunning(ops)
 	defer w.close()
 	for _, o := range ops {
 		var r *result
 		switch o.Name {
 		case "Resp":
-			r = w.toPeer("resp", o.Int(0), o.Term(1))
+			// Resp id (K ghost answer): the ghost of the op is a wish, the ghost of the event is
+			// what the peer did
+			k := o.Term(1)
+			var ghost int64
+			r, ghost = w.toPeerResp("resp", o.Int(0), k.Int(0), k.Term(1))
 			if r != nil {
-				r.evs = append([]any{hx.C("EResp", respKey(w.crashes, o.Int(0)), o.Args[1])}, r.evs...)
+				r.evs = append([]any{hx.C("EResp", respKey(w.crashes, o.Int(0)), hx.C("K", ghost, k.Args[1]))}, r.evs...)
 			}
 		case "RespNotify":
 			r = w.toPeer("resp-notify", 0, hx.T{})
